@@ -76,6 +76,7 @@ func (ts *BackgroundTaskManager) DoPrioritizedTask() {
 	atomic.AddInt64(&ts.prioritizedTasks, 1)
 	close(ts.prioritizedTaskStartNotify)
 	ts.prioritizedTaskStartNotify = make(chan struct{})
+	verifTrace("do", atomic.LoadInt64(&ts.prioritizedTasks))
 	ts.prioritizedTaskStartNotifyMu.Unlock()
 }
 
@@ -120,6 +121,7 @@ func (ts *BackgroundTaskManager) InvokeBackgroundTask(do func(context.Context), 
 			ts.prioritizedTaskStartNotifyMu.Lock()
 			ch := ts.prioritizedTaskStartNotify
 			tasks := atomic.LoadInt64(&ts.prioritizedTasks)
+			verifTrace("decide", tasks)
 			ts.prioritizedTaskStartNotifyMu.Unlock()
 			if tasks > 0 {
 				return false
